@@ -294,6 +294,7 @@ structure EG where
   prog : Prog := {}
   uf : DisjointSet.UF := {}
   vals : List Nat := []                -- `_values`: uf index → class id
+  consts : List Nat := []              -- ids of the classes that are `equivalence.const_class` ops
 
 def EG.indexOf (e : EG) (c : Nat) : Option Nat :=
   let i := e.vals.findIdx? (· = c)
@@ -304,7 +305,10 @@ def EG.ofProg (g : Prog) : EG :=
   let cs := classIds g.body
   { prog := g, uf := DisjointSet.init cs.length, vals := cs }
 
-/-- `eclass_union(a, b)` for two plain (non-constant) classes; `none` = `KeyError` -/
+/-- `eclass_union(a, b)`; `none` = `KeyError`.  After the two `find`s: a constant class is always the
+one that is kept and the union-find is told so (`union_left(to_keep, to_replace)`); two plain classes
+are united by size and the new representative is kept.  (Two constant classes must carry the same
+value — an `assert` in the Python; values are not modelled.) -/
 def eclassUnion (e : EG) (a b : Nat) : Option (EG × Bool) :=
   match e.indexOf a, e.indexOf b with
   | some ia, some ib =>
@@ -315,6 +319,16 @@ def eclassUnion (e : EG) (a b : Nat) : Option (EG × Bool) :=
       | none => none
       | some (u2, rb) =>
         if ra = rb then some ({ e with uf := u2 }, false)
+        else if e.consts.contains (e.vals.getD ra 0) then
+          match DisjointSet.unionLeft u2 ra rb with
+          | none => none
+          | some (u3, _) =>
+            some ({ e with uf := u3, prog := mergeInto e.prog (e.vals.getD ra 0) (e.vals.getD rb 0) }, true)
+        else if e.consts.contains (e.vals.getD rb 0) then
+          match DisjointSet.unionLeft u2 rb ra with
+          | none => none
+          | some (u3, _) =>
+            some ({ e with uf := u3, prog := mergeInto e.prog (e.vals.getD rb 0) (e.vals.getD ra 0) }, true)
         else
           match DisjointSet.union u2 ra rb with
           | none => none
@@ -343,7 +357,7 @@ def addNode (g : Prog) (root r c : Nat) (name key : String) (args : List Nat) : 
 
 program text: `<nargs> ; o <res> <name> <key> <cost|-> <arg>* ; c <res> <mci|-> <arg>* ; … ; r <id>*`
 commands: `create P`, `costs <default|-> <name=cost,…|-> P`, `extract P`, `norule <default|-> <dict> P`,
-`merge <a:b,…> P` -/
+`merge <a:b,…> <const-class ids c,…|-> P` -/
 
 def showOpt : Option Nat → String
   | none => "-"
@@ -391,6 +405,9 @@ def parsePairs (s : String) : Option (List (Nat × Nat)) :=
     | [a, b] => do some (← a.toNat?, ← b.toNat?)
     | _ => none
 
+def parseIds (s : String) : Option (List Nat) :=
+  if s = "-" then some [] else (s.splitOn ",").mapM (·.toNat?)
+
 def showExtract : Option Prog → String
   | some g => showProg g
   | none => "raise"
@@ -416,12 +433,12 @@ def lineStep (s : Unit) (line : String) : Unit × String :=
     (s, match parseOpt d, parseDict dict, parseProg p with
       | some d, some dict, some g => showExtract (extract (addCosts d dict (createEclasses g)))
       | _, _, _ => "bad-op")
-  | "merge" :: ps :: p =>
-    (s, match parsePairs ps, parseProg p with
-      | some ps, some g =>
-        let (e, outs) := runMerges (EG.ofProg g) ps
+  | "merge" :: ps :: cs :: p =>
+    (s, match parsePairs ps, parseIds cs, parseProg p with
+      | some ps, some cs, some g =>
+        let (e, outs) := runMerges { EG.ofProg g with consts := cs } ps
         ",".intercalate outs ++ " | " ++ showProg e.prog
-      | _, _ => "bad-op")
+      | _, _, _ => "bad-op")
   | _ => (s, "bad-op")
 
 end Xdsl.EGraph
